@@ -1,4 +1,5 @@
 import ZvbiModel.Cache.LemmasTtx
+import ZvbiModel.Cache.LemmasFix
 /-!
 # C10 x C03/C02: the page list of the Teletext decoder model is the abstract map of the cache.c model
 
@@ -42,14 +43,14 @@ theorem ttx_put_is_map (nid : Nat) (enc : Ttx.Page → Nat) (c : List Ttx.Page) 
 def Sim (nid : Nat) (enc : Ttx.Page → Nat) (c : List Ttx.Page) (s : State) : Prop :=
   s.abs.filter (fun e => decide (e.net = nid)) = tstore nid enc c
 
-/-- Look-up on both sides: same answer, still in simulation (for every reachable cache.c state). -/
-theorem sim_get (ops : List Op) (nid : Nat) (enc : Ttx.Page → Nat) (c : List Ttx.Page)
-    (hsim : Sim nid enc c (run init ops)) (pgno subno mask : Nat) (hv : validPgno pgno = true) :
-    (((run init ops).getPage nid pgno subno mask).2.map Page.entry
+/-- Look-up on both sides: same answer, still in simulation (for every reachable cache.c state, both source shapes). -/
+theorem sim_get (fix : Bool) (ops : List Op) (nid : Nat) (enc : Ttx.Page → Nat) (c : List Ttx.Page)
+    (hsim : Sim nid enc c (runF fix init ops)) (pgno subno mask : Nat) (hv : validPgno pgno = true) :
+    (((runF fix init ops).getPage nid pgno subno mask).2.map Page.entry
         = (Ttx.cacheGet c pgno subno mask).map (fun r => tentry nid enc r.1))
     ∧ Sim nid enc (match Ttx.cacheGet c pgno subno mask with | some r => r.2 | none => c)
-        ((run init ops).getPage nid pgno subno mask).1 := by
-  obtain ⟨g1, g2⟩ := getPage_abs (good_run ops).1 nid pgno subno mask hv
+        ((runF fix init ops).getPage nid pgno subno mask).1 := by
+  obtain ⟨g1, g2⟩ := getPage_abs (good_runF fix good_init ops).1 nid pgno subno mask hv
   obtain ⟨t1, t2⟩ := tcacheGet_abs nid enc c pgno subno mask hv
   unfold Sim at hsim ⊢
   constructor
@@ -57,7 +58,9 @@ theorem sim_get (ops : List Op) (nid : Nat) (enc : Ttx.Page → Nat) (c : List T
   · rw [g2, atouch_filter, hsim]; exact t2.symm
 
 /-- Store on both sides (memory not short, the decoder's page type is the one in the cache statistics, the
-    stored content token is `enc` of the stored page): same page handed out, still in simulation. -/
+    stored content token is `enc` of the stored page): same page handed out, still in simulation.  Source shape as
+    found (`run`, `putPage`): the decoder model's `Ttx.cachePut` (owned by C03) follows that shape; with
+    fixes/C10-put-replaces-all-versions.diff applied it has to drop all versions under a single-version key as well. -/
 theorem sim_put (ops : List Op) (nid : Nat) (enc : Ttx.Page → Nat) (c : List Ttx.Page)
     (hsim : Sim nid enc c (run init ops)) (cn : Net) (hf : (run init ops).findNet nid = some cn)
     (p : Ttx.Page) (hrange : 0x100 ≤ p.pgno ∧ p.pgno ≤ 0x8FF)
